@@ -1,6 +1,7 @@
 (* Well-formed p-boxes over the reals and the Staircase constructor on inputs of the configured length. *)
 From Coq Require Import Reals Lra List Arith Lia Bool Permutation Sorted.
 From PUN Require Import Base.Num Base.Sort Model.Interval Model.Pbox Proofs.ListR.
+From PUN Require Import Proofs.CtorFinite.
 Import ListNotations.
 Open Scope R_scope.
 
@@ -69,7 +70,7 @@ Lemma mk_plain b (l r : list R) : length l = steps -> length r = steps -> Rsorte
   ple (fst (left_right_switch RN b l r)) (snd (left_right_switch RN b l r)) ->
   mkg b l r = Ok (fst (left_right_switch RN b l r), snd (left_right_switch RN b l r)).
 Proof.
-  intros Hl Hr Sl Sr. unfold mk_staircase_gen. destruct (left_right_switch RN b l r) as [l' r'] eqn:E. cbn [fst snd]. intros Hle.
+  intros Hl Hr Sl Sr. rewrite mk_gen_core_R; unfold mk_staircase_core. destruct (left_right_switch RN b l r) as [l' r'] eqn:E. cbn [fst snd]. intros Hle.
   assert (H : (l' = l /\ r' = r) \/ (l' = r /\ r' = l)).
   { unfold left_right_switch in E. destruct (if b then _ else _); inversion E; auto. }
   assert (Hl' : length l' = steps) by (destruct H as [[-> ->]|[-> ->]]; auto).
